@@ -270,4 +270,49 @@ def c12_config_kind(kind="list", via="setter"):
     bad = cfg != {"n", "q"} or not eq or ne or not he
     return {"violates": bad, "detail": f"ignored fields given as a {kind} through the {via}: configuration {sorted(cfg)}, == {eq}, != {ne}, equal hashes {he}"}
 
-CALLS = {"c12_config_kind": c12_config_kind, "c12_coincidence": c12_coincidence, "c12_laws": c12_laws, "c12_type": c12_type, "c12_scope": c12_scope, "c12_nan": c12_nan, "c12_random_laws": c12_random_laws}
+
+def c12_one_instant(shape="plain"):
+    import datetime as dt
+
+    from flow.record import GroupedRecord, RecordDescriptor
+
+    I = [dt.datetime(2020, 1, 1, 12, 0, 5, tzinfo=dt.timezone.utc), dt.datetime(2020, 1, 1, 13, 0, 5, tzinfo=dt.timezone(dt.timedelta(hours=1))), dt.datetime(2020, 1, 1, 6, 30, 5, tzinfo=dt.timezone(dt.timedelta(hours=-5, minutes=-30)))]
+    T = RecordDescriptor("c12/ts", [("datetime", "ts"), ("datetime[]", "tl"), ("varint", "k")])
+    N = RecordDescriptor("c12/tsn", [("record", "r")])
+    recs = []
+    for d in I:
+        if shape == "plain":
+            r = T(ts=d, tl=[], k=1, _generated=I[0])
+        elif shape == "list":
+            r = T(ts=None, tl=[d, I[0]], k=1, _generated=I[0])
+        elif shape == "_generated":
+            r = T(ts=None, tl=[], k=1, _generated=d)
+        elif shape == "nested":
+            r = N(r=T(ts=d, tl=[], k=1, _generated=I[0]), _generated=I[0])
+        else:
+            r = GroupedRecord("c12/g", [T(ts=d, tl=[], k=1, _generated=I[0])])
+        recs.append(r)
+    eqs = [recs[0] == r for r in recs[1:]]
+    hs = [hash(r) for r in recs]
+    bad = not all(eqs) or len(set(hs)) != 1
+    return {"violates": bad, "detail": f"{shape}: records holding one instant at three offsets: == {eqs}, distinct hashes {len(set(hs))}, in a set {len(set(recs))}"}
+
+
+def c12_grouped_cfg(cfg):
+    import datetime as dt
+
+    from flow.record import GroupedRecord, RecordDescriptor, base
+
+    T = RecordDescriptor("c12/gm", [("varint", "k"), ("string", "s")])
+    t0 = dt.datetime(2020, 1, 1, tzinfo=dt.timezone.utc)
+    g1 = GroupedRecord("c12/g", [T(k=1, s="x", _generated=t0, _source="a")])
+    g2 = GroupedRecord("c12/g", [T(k=1, s="x", _generated=t0 + dt.timedelta(seconds=5), _source="a")])
+    saved = base.IGNORE_FIELDS_FOR_COMPARISON
+    try:
+        base.set_ignored_fields_for_comparison(cfg)
+        eq, ne, he = g1 == g2, g1 != g2, hash(g1) == hash(g2)
+    finally:
+        base.IGNORE_FIELDS_FOR_COMPARISON = saved
+    return {"violates": not eq or ne or not he, "detail": f"grouped records that differ only in _generated under the ignored fields {cfg}: == {eq}, != {ne}, equal hashes {he}"}
+
+CALLS = {"c12_one_instant": c12_one_instant, "c12_grouped_cfg": c12_grouped_cfg, "c12_config_kind": c12_config_kind, "c12_coincidence": c12_coincidence, "c12_laws": c12_laws, "c12_type": c12_type, "c12_scope": c12_scope, "c12_nan": c12_nan, "c12_random_laws": c12_random_laws}
